@@ -29,6 +29,8 @@ pub enum SketchOp {
     Access(HashSel),
     /// many accesses of one hash (drives counters into saturation)
     Burst(HashSel, u8),
+    /// several accesses handed over as ONE batch (as a drained access buffer is); TinyLFU level, elsewhere a sequence
+    Batch(Vec<HashSel>),
     Estimate(HashSel),
     /// FrequencyCounter level only
     Reset,
@@ -88,6 +90,7 @@ fn check_row_case(case: &SketchCase, stats: &mut SketchStats) -> Check {
     for op in &case.ops {
         stats.ops += 1;
         match op {
+            SketchOp::Batch(_) => {}
             SketchOp::Access(sel) | SketchOp::Burst(sel, _) => {
                 let times = if let SketchOp::Burst(_, times) = op { *times as u32 } else { 1 };
                 let position = resolve(sel, positions) % positions;
@@ -173,6 +176,7 @@ fn check_counter_case(case: &SketchCase, stats: &mut SketchStats) -> Check {
     for op in &case.ops {
         stats.ops += 1;
         match op {
+            SketchOp::Batch(_) => {}
             SketchOp::Access(sel) | SketchOp::Burst(sel, _) => {
                 let times = if let SketchOp::Burst(_, times) = op { *times as u32 } else { 1 };
                 let hash = resolve(sel, total);
@@ -267,6 +271,32 @@ fn check_tiny_case(case: &SketchCase, stats: &mut SketchStats) -> Check {
                 let expected = reference.estimate(hash) as u32 + tiny.door_keeper_has(hash) as u32;
                 ensure!(estimate == expected, "C14", "C14/estimate-composition", "estimate({:#x}) = {}, sketch minimum {} + filter {}", hash, estimate, reference.estimate(hash), tiny.door_keeper_has(hash));
             }
+            SketchOp::Batch(selectors) => {
+                // one hand-over of several accesses: the first-access filter cannot be observed between the elements, so the
+                // counters are not predicted exactly here (the reference is re-synchronised afterwards); what must hold exactly is
+                // the ageing arithmetic (ageing happens at the access that completes the window, wherever it falls in the batch)
+                // and the no-under-count bound for the accesses recorded since that ageing
+                let hashes: Vec<u64> = selectors.iter().map(|sel| resolve(sel, total)).collect();
+                if hashes.is_empty() { continue; }
+                let ok = std::panic::catch_unwind(std::panic::AssertUnwindSafe(|| tiny.increment_access(hashes.clone())));
+                ensure!(ok.is_ok(), "C14", "C14/increment-panic", "increment_access({} hashes) panicked with {} counters", hashes.len(), case.counters);
+                let mut aged = false;
+                for hash in &hashes {
+                    since_ageing += 1;
+                    *window.entry(*hash).or_insert(0) += 1;
+                    if !seen.contains(hash) { seen.push(*hash); }
+                    if since_ageing >= case.counters { since_ageing = 0; window.clear(); stats.agings += 1; aged = true; }
+                }
+                ensure!(tiny.total_increments() == since_ageing, "C14", "C14/age/batch-miscounted", "a batch of {} accesses was recorded{}; {} accesses belong to the current ageing window (threshold {}) but total_increments = {}", hashes.len(), if aged { " and completed an ageing window inside the batch" } else { "" }, since_ageing, case.counters, tiny.total_increments());
+                for (hash, recorded) in &window {
+                    let estimate = tiny.estimate(*hash) as u32;
+                    ensure!(estimate >= (*recorded).min(15), "C14", "C14/under-count", "after a batch of {} accesses{} estimate({:#x}) = {} but {} accesses were recorded in the current ageing window", hashes.len(), if aged { " (which completed an ageing window)" } else { "" }, hash, estimate, recorded);
+                    ensure!(estimate <= 16, "C14", "C14/over-max", "estimate({:#x}) = {} exceeds the sketch maximum", hash, estimate);
+                }
+                // re-synchronise the exact reference with the implementation
+                let rows = tiny.rows();
+                for row in 0..4 { reference.rows[row] = unpack(&rows[row]); }
+            }
             SketchOp::Reset => {}
             SketchOp::Clear => {
                 tiny.clear();
@@ -284,6 +314,12 @@ fn check_tiny_case(case: &SketchCase, stats: &mut SketchStats) -> Check {
 
 pub fn run_sketch_case(case: &SketchCase) -> (SketchStats, Option<Failure>) {
     let mut stats = SketchStats::default();
+    let flattened;
+    let case = if case.level != SketchLevel::TinyLfu && case.ops.iter().any(|op| matches!(op, SketchOp::Batch(_))) {
+        let ops = case.ops.iter().flat_map(|op| match op { SketchOp::Batch(hashes) => hashes.iter().cloned().map(SketchOp::Access).collect::<Vec<_>>(), other => vec![other.clone()] }).collect();
+        flattened = SketchCase { ops, ..case.clone() };
+        &flattened
+    } else { case };
     let result = match case.level {
         SketchLevel::Row => check_row_case(case, &mut stats),
         SketchLevel::Counter => check_counter_case(case, &mut stats),
@@ -342,6 +378,7 @@ pub fn sketch_case_strategy(max_ops: usize) -> BoxedStrategy<SketchCase> {
     let op = prop_oneof![
         10 => hash_sel_strategy().prop_map(SketchOp::Access),
         3 => (hash_sel_strategy(), 1u8..=40).prop_map(|(sel, times)| SketchOp::Burst(sel, times)),
+        4 => prop::collection::vec(hash_sel_strategy(), 2..=12).prop_map(SketchOp::Batch),
         4 => hash_sel_strategy().prop_map(SketchOp::Estimate),
         1 => Just(SketchOp::Reset),
         1 => Just(SketchOp::Clear),
